@@ -138,16 +138,16 @@ package dnsserver
 //@ requires h.logger != nil && h.stats != nil && w != nil && r != nil
 //@ requires h.cacheConfig.Enabled ==> h.lru != nil
 //@ ensures[queries] cnt["DNS_queries"] == old(cnt)["DNS_queries"] + 1
-//@ before writeAndLog#0 assert[badvers] a != nil && a.Rcode == dns.RcodeBadVers && a.Id == r.Id && a.Response
-//@ before writeAndLog#1 assert[hit-shape] resp != nil && resp.Id == r.Id && resp.Response
-//@ before writeAndLog#1 assert[hit-opt] (uf.edns0of(r) != nil) == (o != nil)
-//@ before writeAndLog#1 assert[hit-ecs] o != nil ==> len(o.Option) == ite(ecs != nil, 1, 0)
-//@ before writeAndLog#2 assert[refused] m != nil && m.Rcode == dns.RcodeRefused && m.Id == r.Id && m.Response && !ns && !auth && len(m.Answer) == 0
-//@ before writeAndLog#3 assert[shape] a != nil && a.Id == r.Id && a.Response
-//@ before writeAndLog#3 assert[auth] a.Authoritative == auth
-//@ before writeAndLog#3 assert[rcode] a.Rcode == dns.RcodeSuccess || (a.Rcode == dns.RcodeNameError && auth && len(a.Answer) == 0)
-//@ before writeAndLog#3 assert[opt] (uf.edns0of(r) != nil) == (o != nil)
-//@ before writeAndLog#3 assert[ecs] o != nil ==> len(o.Option) == ite(ecs != nil, 1, 0)
-//@ before writeAndLog#3 assert[ecsobj] ecs == nil || ecs == uf.ecsof(r)
-//@ before Add#0 assert[cache-before-opt] o == nil
-//@ before Add#1 assert[cache-before-opt] o == nil
+//@ before FBDNSDB.writeAndLog#0 assert[badvers] a != nil && a.Rcode == dns.RcodeBadVers && a.Id == r.Id && a.Response
+//@ before FBDNSDB.writeAndLog#1 assert[hit-shape] resp != nil && resp.Id == r.Id && resp.Response
+//@ before FBDNSDB.writeAndLog#1 assert[hit-opt] (uf.edns0of(r) != nil) == (o != nil)
+//@ before FBDNSDB.writeAndLog#1 assert[hit-ecs] o != nil ==> len(o.Option) == ite(ecs != nil, 1, 0)
+//@ before FBDNSDB.writeAndLog#2 assert[refused] m != nil && m.Rcode == dns.RcodeRefused && m.Id == r.Id && m.Response && !ns && !auth && len(m.Answer) == 0
+//@ before FBDNSDB.writeAndLog#3 assert[shape] a != nil && a.Id == r.Id && a.Response
+//@ before FBDNSDB.writeAndLog#3 assert[auth] a.Authoritative == auth
+//@ before FBDNSDB.writeAndLog#3 assert[rcode] a.Rcode == dns.RcodeSuccess || (a.Rcode == dns.RcodeNameError && auth && len(a.Answer) == 0)
+//@ before FBDNSDB.writeAndLog#3 assert[opt] (uf.edns0of(r) != nil) == (o != nil)
+//@ before FBDNSDB.writeAndLog#3 assert[ecs] o != nil ==> len(o.Option) == ite(ecs != nil, 1, 0)
+//@ before FBDNSDB.writeAndLog#3 assert[ecsobj] ecs == nil || ecs == uf.ecsof(r)
+//@ before Cache.Add#0 assert[cache-before-opt] o == nil
+//@ before Cache.Add#1 assert[cache-before-opt] o == nil
